@@ -38,6 +38,7 @@ func NewInterp(p *Program, cfg *Config, sh *Shared, id int) (*Interp, error) {
 		return nil, err
 	}
 	in.solver = s
+	s.AllVars = func() []*sym.Term { return in.ctx.Vars }
 	// initialise everything once; keep the state of non-target packages.
 	in.resetPath()
 	var initErr error
